@@ -436,6 +436,67 @@ fn two_point_coverage(ctx: &mut Ctx) {
     }
 }
 
+/// longer parents: the segment taken from the second parent must be able to start at position 0,
+/// to end at the last position, to be empty and to lie strictly inside (each with probability
+/// >= 1/(len+1) under uniform cut points), and is one contiguous interval in every draw
+fn two_point_coverage_long(ctx: &mut Ctx) {
+    let n_seeds = ctx.tier.pick(20_000u64, 200_000);
+    let sub = "two_point_segment_coverage_long";
+    for bits in [false, true] {
+        for len in [33usize, 64, 65, 130, 257] {
+            let name = impl_name(true, bits, false);
+            let p1: Vec<bool> = (0..len).map(|i| i % 2 == 0).collect();
+            let p2: Vec<bool> = p1.iter().map(|b| !b).collect();
+            let (mut at_start, mut at_end, mut empty, mut inside) = (0u64, 0u64, 0u64, 0u64);
+            let mut failure: Option<Fail> = None;
+            for k in 0..n_seeds {
+                let mut rng = StdRng::seed_from_u64(derive_seed(ctx.seed, "C10", &name, k ^ ((len as u64) << 40) ^ 0x10E6));
+                let out = guarded(|| if bits { recombine_bits(true, false, &p1, &p2, &mut rng).0 } else { recombine_vec(true, false, len, len, &mut rng) });
+                match out {
+                    Err(p) => {
+                        failure = Some(Fail::new(format!("{name}/panic"), format!("two-point crossover of two parents of length {len} panicked: {p}")));
+                        break;
+                    }
+                    Ok(RecOut::Child(src)) => {
+                        if let Err(f) = check_sources(&name, true, len, &src) {
+                            failure = Some(f);
+                            break;
+                        }
+                        let twos: Vec<usize> = src.iter().enumerate().filter(|(_, s)| **s == Some(2)).map(|(i, _)| i).collect();
+                        match (twos.first(), twos.last()) {
+                            (Some(a), Some(b)) => {
+                                at_start += u64::from(*a == 0);
+                                at_end += u64::from(*b + 1 == len);
+                                inside += u64::from(*a > 0 && *b + 1 < len);
+                            }
+                            _ => empty += 1,
+                        }
+                    }
+                    Ok(_) => {
+                        failure = Some(Fail::new(format!("{name}/spurious-error"), format!("equal-length parents ({len}) rejected")));
+                        break;
+                    }
+                }
+            }
+            ctx.count(sub, n_seeds);
+            ctx.note_nontrivial(crate::fnv(&format!("covlong{bits}{len}")));
+            ctx.add_label(sub, &format!("{name} len {len}: segments at start {at_start}, at end {at_end}, empty {empty}, inside {inside}"), 1);
+            if failure.is_none() {
+                let missing = [("segment-never-touches-start", at_start), ("segment-never-touches-end", at_end), ("empty-segment-never-occurs", empty), ("segment-never-occurs", inside)];
+                if let Some((aspect, _)) = missing.iter().find(|(_, k)| *k == 0) {
+                    failure = Some(Fail::new(
+                        format!("{name}/{aspect}"),
+                        format!("over {n_seeds} seeded crossovers of {len}-gene parents: segments starting at 0: {at_start}, ending at {len}: {at_end}, empty: {empty}, strictly inside: {inside}; each class has probability >= 1/{} under uniform cut points", len + 1),
+                    ));
+                }
+            }
+            if let Some(f) = failure {
+                ctx.violation(sub, &f, json!({"impl": name, "len": len, "seeds": n_seeds}));
+            }
+        }
+    }
+}
+
 /// uniform crossover: all 2^len source patterns at frequency 2^-len (independence of positions)
 fn uniform_independence(ctx: &mut Ctx) {
     let n = ctx.tier.pick(200_000u64, 4_000_000);
@@ -541,11 +602,14 @@ fn uniform_independence_long(ctx: &mut Ctx) {
 }
 
 pub fn run(ctx: &mut Ctx) {
-    ctx.rule = "generated parent pairs (tagged (parent, position) vectors; complementary or random bitstrings) of equal and different lengths through TwoPointXo / UniformXo in all four impls x array/tuple forms with a generated random stream; generated crossover_gene / crossover_segment calls with indices around both lengths, usize::MAX and inverted ranges; plus seeded coverage of all two-point segments for len <= 6 the exact 2^-len law of uniform-crossover source patterns for len <= 4, and on parents of 70 / 130 / 520 genes the per-position rate 1/2 and the agreement law 1/2 of disjoint position pairs at lags 1..257 (independence at a distance). non-trivial = len >= 2 and the child mixes both parents, or any misuse / primitive case; distinct by JSON encoding".into();
+    ctx.rule = "generated parent pairs (tagged (parent, position) vectors; complementary or random bitstrings) of equal and different lengths through TwoPointXo / UniformXo in all four impls x array/tuple forms with a generated random stream; generated crossover_gene / crossover_segment calls with indices around both lengths, usize::MAX and inverted ranges; plus a second pass with parents of up to 700 genes, seeded coverage of all two-point segments for len <= 6 and of the segment classes (touching the start, touching the end, empty, strictly inside) for len 33..257 the exact 2^-len law of uniform-crossover source patterns for len <= 4, and on parents of 70 / 130 / 520 genes the per-position rate 1/2 and the agreement law 1/2 of disjoint position pairs at lags 1..257 (independence at a distance). non-trivial = len >= 2 and the child mixes both parents, or any misuse / primitive case; distinct by JSON encoding".into();
     ctx.assumptions.push("coverage check assumes every admissible two-point segment has probability >= 1/(len+1)^2; contents after an Err are not checked; an inverted range may return Ok (unchanged) or Err".into());
     let (n, max_len) = ctx.tier.pick((150_000u32, 60usize), (3_000_000, 500));
     ctx.run_prop("generated_cases", n, move || strategy(max_len), oracle);
+    let (n_long, long_len) = ctx.tier.pick((20_000u32, 700usize), (300_000, 3_000));
+    ctx.run_prop("generated_cases_long", n_long, move || strategy(long_len), oracle);
     two_point_coverage(ctx);
+    two_point_coverage_long(ctx);
     uniform_independence(ctx);
     uniform_independence_long(ctx);
 }
@@ -553,6 +617,7 @@ pub fn run(ctx: &mut Ctx) {
 pub fn replay(ctx: &mut Ctx, sub: &str, case: &Value) {
     match sub {
         "two_point_segment_coverage" => two_point_coverage(ctx),
+        "two_point_segment_coverage_long" => two_point_coverage_long(ctx),
         "uniform_pattern_law" => uniform_independence(ctx),
         "uniform_long_parents" => uniform_independence_long(ctx),
         _ => ctx.replay_case::<Case, _>(sub, case, oracle),
